@@ -26,7 +26,7 @@ META = {
 
 def shards(tier):
     if tier == "quick":
-        return [{"label": "cubes%d" % i, "n": 110} for i in range(14)]
+        return [{"label": "cubes%d" % i, "n": 300} for i in range(14)]
     return [{"label": "cubes%d" % i, "n": 8000} for i in range(16)]
 
 
